@@ -12,7 +12,6 @@
   `reads` (finished read-only calls), `done`/`before` (returned commits, snapshot at invocation).
 -/
 import Lungo.Proofs.ConcLogAll
-import Lungo.Proofs.ConcNamed
 namespace Lungo.Conc.C04
 open Lungo.Conc
 
